@@ -290,6 +290,13 @@ func (q *c15Seq) wfStep(si int, pending map[int]*c15Text) bool {
 		case fits:
 			// Positive control: the stored form fits under the limit.
 			rd := c15ReplacedDiffs(l.ID, l.Allow, s.nf, nfLines, after, s.t.Probe, l.GoodProbe)
+			if len(rd) > 0 && len(ud) == 0 && l.Src != "file" && q.env.script.doneCount(l.Key) == 0 {
+				// No complete response left the list server and nothing
+				// changed: nothing to judge (see the part refresh).
+				rep.Event("cases_not_judged:no_complete_response_left_the_list_server")
+
+				break
+			}
 			switch {
 			case len(rd) == 0 && limit >= 0:
 				rep.Class("case:limit-not-reached-and-stored")
